@@ -78,9 +78,43 @@ def consuming_params(P):
     return cons
 
 
+def prepare(w):
+    """inline (once per run) the static helpers that only the dispatcher calls and that do part of a case's work (state update, transmit,
+    queueing or freeing the message), so that a case body folded into a helper is still seen as part of the case.  Pure log helpers stay calls."""
+    if getattr(w, "_disp_prepared", False):
+        return w._disp_inlined
+    from . import inline
+    P = w.P
+    f, sw, tparam, mparam = find_dispatcher(P)
+    logs = {"syslog_libbidib", "syslog", "vsyslog"}
+
+    def works(g, depth=0):
+        """the helper does part of a case's effect: it calls into state tracking or an encoder (log / queue / extract helpers do not)"""
+        for c in g.calls():
+            h = P.functions.get(c.callee or "")
+            if h is None or not h.blocks or c.callee in logs:
+                continue
+            if h.relfile.startswith(("src/state/", "src/lowlevel/", "src/highlevel/")) and not h.ret.endswith("*"):
+                return True
+            if h.internal and h.relfile == g.relfile and depth < 2 and works(h, depth + 1):
+                return True
+        return False
+
+    def pred(g):
+        if not g.internal or g.relfile != f.relfile or g.name in P.addr_taken():
+            return False
+        cs = P.callers().get(g.name, [])
+        return bool(cs) and all(cf.name == f.name for cf, ci in cs) and works(g)
+    done = inline.inline_helpers(P, f.name, pred)
+    w._disp_prepared = True
+    w._disp_inlined = done
+    return done
+
+
 class Dispatch:
     def __init__(self, w):
         self.w = w
+        prepare(w)
         P = self.P = w.P
         self.fn, self.sw, self.tparam, self.mparam = find_dispatcher(P)
         self.namers = queue_namers(P)
